@@ -88,7 +88,8 @@ class _RedisConsumer(ConsumerT):
                 await asyncio.sleep(self.POLLING_WAIT)
                 continue
             key, _, params = msg
-            if params.is_overdue:
+            # dead letters stay retrievable: a dead-letter consumer gets them even if their ttl has run out
+            if params.is_overdue and self.category != MessageCategory.DEAD:
                 await self.broker.nack(key)
                 continue
             return msg
